@@ -386,6 +386,12 @@ def main():
             (c10.job_entries, {'L': 3, 'N': 2, 'use_obliquity': False, 'sync': False, 'totals': True})]
     # the whole public functions under the provenance tracer: the derivative call sites receive (a, n, e, m_target, dUdM, dUdw, m_host) of the right body (C10 obligations)
     jobs += [(c10.job_quick_api, {'chunk': ch, 'nchunks': 4}) for ch in range(4)]
+    # the balance equations are stated for the per-mode terms the mode machinery produces: accumulation of modes that share a frequency (per-entry identities with obliquity) and the
+    # multi-degree inclination helpers (which (m,p) keys each degree receives) are shared obligations of C10 / C09
+    for sync in (False, True):
+        jobs.append((c10.job_entries, {'L': 2, 'N': 2, 'use_obliquity': True, 'sync': sync, 'totals': False}))
+    import c09
+    jobs.append((c09.job_lookup, {}))
     meta = {
         'explanation': 'single_dissipation.py / dual_dissipation.py (all functions), conversions.orbital_motion2semi_a and the result-assembly statements of quick_tidal_dissipation / '
                        'quick_dual_body_tidal_dissipation (AST slices) are executed from the current source on symbols. Under the Kepler constraint n^2 a^3 = G(m1+m2) (itself checked on the '
